@@ -374,43 +374,6 @@ Qed.
 (* ------------------------------------------------------------------ *)
 (** * C05 for an accepting run of one layout                            *)
 
-Lemma Forall2_lookup_k : forall {A B} (R : str -> A -> B -> Prop) (l : list (str * A)) (l' : list (str * B)) k v,
-  Forall2 (fun x y => fst x = fst y /\ R (fst x) (snd x) (snd y)) l l' ->
-  lookup k l = Some v -> exists w, lookup k l' = Some w /\ R k v w.
-Proof.
-  induction 1 as [|[k1 v1] [k2 v2] l l' [H1 H2] _ IH]; simpl; intro H; [discriminate|].
-  simpl in H1, H2. subst k2.
-  destruct (eqs k k1) eqn:E.
-  - apply eqs_eq in E. subst. inversion H; subst. exists v2. split; [reflexivity|exact H2].
-  - apply IH. exact H.
-Qed.
-
-(** entries produced step by step and consulted by name: the entry found under a step's name is
-    that of the first step with this name — the step itself when step names are distinct *)
-Lemma Forall2_key_lookup_first : forall {A B} (f : A -> str) (P : A -> B -> Prop) (l : list A) (l' : list (str * B)) x,
-  Forall2 (fun x e => fst e = f x /\ P x (snd e)) l l' -> In x l ->
-  exists x' g, In x' l /\ f x' = f x /\ lookup (f x) l' = Some g /\ P x' g.
-Proof.
-  induction 1 as [|y [k g] l l' [H1 H2] _ IH]; intro Hin; [contradiction|]. cbn [fst snd] in *. subst k.
-  simpl. destruct (eqs (f x) (f y)) eqn:E.
-  - apply eqs_eq in E. exists y, g. repeat split; auto.
-  - destruct Hin as [->|Hin]; [rewrite eqs_refl in E; discriminate|].
-    destruct (IH Hin) as [x' [g' [Ha [Hb [Hc Hd]]]]]. exists x', g'. repeat split; auto.
-Qed.
-
-Lemma Forall2_key_lookup : forall {A B} (f : A -> str) (P : A -> B -> Prop) (l : list A) (l' : list (str * B)) x,
-  Forall2 (fun x e => fst e = f x /\ P x (snd e)) l l' -> NoDup (map f l) -> In x l ->
-  exists g, lookup (f x) l' = Some g /\ P x g.
-Proof.
-  induction 1 as [|y [k g] l l' [H1 H2] _ IH]; intros ND Hin; [contradiction|]. cbn [fst snd] in *. subst k.
-  simpl in ND. inversion ND as [|z zs Hn ND']; subst. simpl.
-  destruct Hin as [->|Hin].
-  - rewrite eqs_refl. exists g. split; [reflexivity|exact H2].
-  - destruct (eqs (f x) (f y)) eqn:E.
-    + apply eqs_eq in E. exfalso. apply Hn. rewrite <- E. apply in_map. exact Hin.
-    + apply IH; assumption.
-Qed.
-
 Section Agreement.
   Variable b64dec : str -> option (list N).
   Variable loads : list N -> option json.
